@@ -59,6 +59,10 @@ def std_dataset(rng, **kw):
         # species (r10-C01b: a name index that canonicalises blanks and underscores)
         a_, b_ = rng.sample(lv_, 2)
         ren_ = {gen.sub(D.T, a_)[0]: 'Ecoli K12', gen.sub(D.T, b_)[0]: 'Ecoli_K12'}
+        if len(lv_) >= 3 and rng.random() < 0.5:
+            c_ = rng.choice([x_ for x_ in lv_ if x_ not in (a_, b_)])
+            ren_[gen.sub(D.T, c_)[0]] = 'Bsub  168'           # ... and a name with two consecutive blanks (r11-C12b: white space collapsed)
+            D.meta['no_phyloxml'] = True                      # (PhyloXML name fields are XML tokens: their white space is collapsed by the reader)
         def rn_(t):
             return (ren_.get(t[0], t[0]) if not t[1] else t[0], tuple(rn_(k_) for k_ in t[1]))
         D.T = rn_(D.T)
@@ -616,14 +620,21 @@ def explore_maps(prop, tier, seed, n_quick, mode):
         if D.meta.get('large'):
             ex.res.count('large_datasets'); continue
         ex.submit(cid, D, o.tags, ['load'] + tags, queries=queries)
-    # ---- files outside the history domain, with the MODEL as reference (C05 / C06 only): two separate duplication events on one
+    # ---- files outside the history domain, with the MODEL as reference (C05 / C06 / C07): two separate duplication events on one
     # branch (sibling paralogGroups), species-level groups, files that encode no history.  Wherever the model's comparison is
     # consistent (its RETAINED never overwrites: flag c=1) pyham must return the same clusters and they must partition both genomes.
-    if mode in ('C05', 'C06'):
+    if mode in ('C05', 'C06', 'C07'):
         for k in range(max(20, n // 5)):
-            kind = ex.rng.choice(['sibling_events', 'sibling_events', 'species_level', 'wild'])
+            kind = ex.rng.choice(['sibling_events', 'sibling_events', 'species_level', 'wild', 'single_member_pg', 'single_member_pg'])
             if kind == 'wild':
                 D = gen.wild_dataset(ex.rng)
+            elif kind == 'single_member_pg':
+                # duplications of which one copy is left in the file (a paralogGroup with a single member): r11-C07a
+                D = std_dataset(ex.rng)
+                D.groups, nsm = gen.single_member_pgs(ex.rng, D.groups, prob=0.5)
+                if not nsm:
+                    continue
+                D.families = []
             else:
                 D = std_dataset(ex.rng, P=dict(dup=0.6, elide=0.7, loss=0.1, multi=0.9))
                 if kind == 'sibling_events':
@@ -761,6 +772,19 @@ def explore_profiles(prop, tier, seed, n_quick):
                 for a_, d_ in (far_ if len(far_) <= 8 else ex.rng.sample(far_, 8)):
                     h.compare_genomes_vertically(fg_[a_], fg_[d_])
                 ex.res.count('distant_comparisons_before_the_profile', min(8, len(far_)))
+            if k % 4 == 1:
+                # comparisons of adjacent genomes were made, and their dictionaries READ by subscript (KeyError for genes that are
+                # not keys), before the profile: a read does not change what the profile later counts (r11-C09a)
+                ap_, ag_ = orc.lineage_pairs(h)
+                for a_, d_ in [(x_, y_) for x_, y_ in ap_ if len(y_) - len(x_) == 1][:12]:
+                    m_ = h.compare_genomes_vertically(ag_[a_], ag_[d_])
+                    for dd_ in (m_.get_duplicated(), m_.get_retained()):
+                        for x_ in list(ag_[a_].genes):
+                            try:
+                                dd_[x_]
+                            except KeyError:
+                                pass
+                ex.res.count('cases_with_subscript_reads_before_the_profile')
             bad = orc.c09(D, h, ex.tmp) if prop == 'C09' else orc.c10(D, h)
             tp = h.create_tree_profile()
             o.put('tpfull', ob.profileS(tp.treemap))
@@ -1010,6 +1034,12 @@ def c12(tier, seed):
         o = ob.Obs(); o.put('load', 'ok'); bad = []
         nwk = core.nwk_of(D)
         held12 = []
+        if k % 4 == 1:
+            # the lazy per-genome clusterings were filled before any page is built (r11-C12a: a getter that starts from a cached
+            # list and extends it in place)
+            for g_ in h.get_list_ancestral_genomes():
+                g_.get_ancestral_clustering()
+            ex.res.count('cases_with_clusterings_before_the_pages')
         for top in h.get_list_top_level_hogs():
             for nd in all_nodes(top):
                 if not isinstance(nd, ag.HOG):
@@ -1194,6 +1224,22 @@ def c16(tier, seed):
                 o.put('atlevel', '%s@%s=%s' % (nodekey(m), taxS(p), txt))
                 queries.append('(atlevel %s %s)' % (gen.q(nodekey(m)), tax_q(p)))
                 ex.res.count('atlevel_' + ('err' if txt.startswith('err') else 'ok'))
+            if k % 5 == 3 and not bad:
+                # navigation asked for from INSIDE a walk (a visit() callback that itself navigates): same answers as outside
+                for top_ in h.get_list_top_level_hogs()[:3]:
+                    want_ = {id(x_): sorted(g_.unique_id for g_ in x_.get_all_descendant_genes()) for x_ in all_nodes(top_) if isinstance(x_, ag.HOG)}
+                    seen_ = {}
+                    def cb_(cur_, elem_):          # (function_prefix is called with the current HOG and the carried object)
+                        seen_[id(cur_)] = sorted(g_.unique_id for g_ in cur_.get_all_descendant_genes())
+                        cur_.get_top_level_hog(); cur_.get_all_descendant_hog_levels()
+                        return elem_
+                    try:
+                        top_.visit([], function_prefix=cb_)
+                        if any(want_.get(k_) != v_ for k_, v_ in seen_.items()):
+                            bad.append('navigation from inside a visit() callback differs from the same navigation outside (family %s)' % nodekey(top_))
+                        ex.res.count('nested_navigation_inside_visit')
+                    except Exception as e:      # noqa
+                        bad.append('navigation from inside a visit() callback raised %s: %s' % (type(e).__name__, e))
             if k % 4 == 2 and not bad:
                 # "for every HOG": also one whose children were edited through the public API (remove_child / add_child) after it
                 # had been navigated -- the views of every HOG of the family must again describe the same subtree.  Last use
